@@ -299,7 +299,12 @@ class NonBondEngine():
                 if gndx_pair not in exclusions:
                     other_atype = self.atypes[gndx_pair]
                     params = self.interaction_matrix[frozenset([current_atype, other_atype])]
-                    force += POTENTIAL_FUNC[potential](dist, point, self.positions[gndx_pair], params)
+                    # the distance is computed under periodic boundary conditions so
+                    # the distance vector must follow the minimum image convention too
+                    boxsize = np.asarray(self.boxsize, dtype=float)
+                    diff = point - self.positions[gndx_pair]
+                    diff = diff - boxsize * np.round(diff / boxsize)
+                    force += POTENTIAL_FUNC[potential](dist, point, point - diff, params)
         return force
 
     def compute_bending_probability(self, lp, point, mol_idx, node_b, node_c):
